@@ -156,10 +156,27 @@ class LexAnalysis:
         """[(emitted token type or None, regex over y restricting the lexeme)] for one rule"""
         anyc = to_z3(ANYCH)
         whole = z3.Concat(z3.Star(anyc), model.markre(), z3.Star(anyc))
-        if rule.func is None:
-            return [(None if rule.ignored_type else rule.type, whole)]
-        paths, run = self.effects[(state.name, rule.name)]
         out = []
+        remap = (getattr(state.cls, "_remapping", None) or {}).get(rule.type) or {}
+        if remap:
+            # sly: tok.type = _remapping[type].get(tok.value, type) BEFORE the token function is looked up
+            vals = []
+            for value, newtype in remap.items():
+                if not isinstance(value, str):
+                    raise common.Inconclusive("token remapping on a non-string value")
+                if newtype in state.cls._token_funcs:
+                    raise common.Inconclusive("remapped token type %s has a token function" % newtype)
+                lit = z3.Re(z3.StringVal(value))
+                vals.append(lit)
+                ignored = newtype in state.cls._ignored_tokens
+                out.append((None if ignored else newtype, z3.Concat(lit, model.markre(), z3.Star(anyc))))
+            others = z3.Concat(z3.Intersect(z3.Star(anyc), z3.Complement(union(vals))), model.markre(), z3.Star(anyc))
+        else:
+            others = whole
+        if rule.func is None:
+            return out + [(None if rule.ignored_type else rule.type, others)]
+        paths, run = self.effects[(state.name, rule.name)]
+        whole = others
         for p in paths:
             if p["outcome"] != "token":
                 out.append((None, whole))
@@ -232,7 +249,7 @@ class LexAnalysis:
                 if w is not None:
                     self.add("LX-ONLY", etype, w, "implementation emits %s(%r), a token the documentation does not have" % (etype, w[0]))
                 continue
-            reg = z3.Intersect(fires, z3.Complement(ref.ref_fires(c)))
+            reg = z3.Intersect(fires, ref.context_ok(), z3.Complement(ref.ref_fires(c)))
             w = query(self.tally, reg, "LX-ONLY(%s as %s): implementation emits the token, reference does not" % (rule.name, etype))
             if w is not None:
                 self.add("LX-ONLY", etype, w, "the implementation emits %s(%r) where the reference lexer does not" % (etype, w[0]))
